@@ -299,3 +299,22 @@ pub fn sentinel_inputs(prop: &str, variant: &str) -> Vec<(crate::gen::Case, Vec<
     }
     out.into_iter().map(|(_, c, l)| (c, l)).collect()
 }
+
+/// Branches of the library (hook H2 sites) that the workload of a property must have gone through at least once;
+/// a run that did not reach one of them observed too little and is inconclusive, not "held".
+pub fn required_sites(prop: &str) -> Vec<&'static str> {
+    match prop {
+        "C01" => vec!["FullSweep", "TrivialResult", "SubEarlyBreak", "PiPoint", "PiOverlapLeftCoincide", "PiOverlapLeftCoincideDivide", "PiOverlapRightCoincide", "PiOverlapStaggered", "PiOverlapContained", "CfSameOperandVerticalPrev", "CfOtherOperandVerticalPrev", "CeContourHole", "CeContourHoleSibling", "CeContourExteriorAbove"],
+        "C02" => vec!["CeContourHole", "CeContourHoleSibling", "CeContourExteriorAbove", "CeContourNoPrev", "PiOverlapLeftCoincide", "CfSameOperandVerticalPrev", "CfPrevInResultInherited", "CfPrevInResultDirect"],
+        "C03" => vec!["FullSweep", "TrivialResult", "SubEarlyBreak", "SubRemovalNeighbourCheck"],
+        "C04" => vec!["PiDivideFirst", "PiDivideSecond", "DsCalls", "PiOverlapLeftCoincideDivide"],
+        "C05" | "C07" | "C08" | "C10" | "C11" => vec!["FullSweep", "SubEarlyBreak", "PiOverlapLeftCoincide", "PiPoint"],
+        "C06" => vec!["FullSweep", "TrivialResult", "PiOverlapLeftCoincide"],
+        "C09" => vec!["FullSweep", "TrivialResult", "SubEarlyBreak"],
+        "C13" => vec!["SubRemovalNeighbourCheck", "SubEarlyBreak", "SubRecomputeNext", "SubRecomputePrev", "PiOverlapLeftCoincide", "PiOverlapRightCoincide", "PiOverlapStaggered", "PiOverlapContained", "PiPointSharedEndpoint", "PiDivideFirst", "PiDivideSecond"],
+        "C14" => vec!["CfNoPrev", "CfSameOperand", "CfSameOperandVerticalPrev", "CfOtherOperand", "CfOtherOperandVerticalPrev", "CfPrevInResultDirect", "CfPrevInResultInherited", "CfPrevInResultNone", "SubRecomputeNext", "SubRecomputePrev", "PiOverlapLeftCoincide"],
+        "C15" => vec!["CsCollinearOtherOperand", "SubLeft", "SubRight"],
+        "C16" => vec!["PiNone", "PiPointSharedEndpoint", "PiPoint", "PiDivideFirst", "PiDivideSecond", "PiOverlapSameOperand", "PiOverlapLeftCoincide", "PiOverlapLeftCoincideDivide", "PiOverlapRightCoincide", "PiOverlapStaggered", "PiOverlapContained", "DsCalls", "DsCorner1Bump", "DsCorner2Swap"],
+        _ => vec![],
+    }
+}
